@@ -1167,7 +1167,8 @@ def explore(ctx, widen=1):
     ctx.differential('corpus', [c for c in cp if c.get('unit') not in ('rounded', 'code')], model_line, impl, **kw)
     rounded_stream(ctx, 'corpus-rounded', [c for c in cp if c.get('unit') == 'rounded'])
     code_stream(ctx, 'corpus-code', [c for c in cp if c.get('unit') == 'code'])
-    ctx.differential('random', gen(ctx.rng, ctx.n(3000, 40000) * widen), model_line, impl, **kw)
+    # rank scorers the translator rejected are tied by this stream alone: denser (DESIGN.md 2.1 fallback)
+    ctx.differential('random', gen(ctx.rng, ctx.n(3000, 40000) * widen * (3 if 'Rankscore' in ctx.fallback else 1)), model_line, impl, **kw)
     code_stream(ctx, 'totals', gen_totals(ctx.rng, ctx.n(1200, 15000) * widen))
     code_stream(ctx, 'chain', gen_chain(ctx.rng, ctx.n(1500, 20000) * widen))
 
